@@ -68,60 +68,66 @@ def flags_str(stream, client):
 
 # ---- monitor (direct oracle, independent of the model) -------------------------------------------
 
-def monitor(frames, server, streaming):
+def monitor(frames, server, streaming, want_state=False):
     """frames: codes.  Returns None if the emitted frames are a prefix of a well-formed Request /
-    Response, else a description."""
+    Response, else a description.  With want_state: (description or None, state) where state is 'init', 'open',
+    'done' (END_STREAM sent) or 'cut' (RST_STREAM sent)."""
+    r = _monitor(frames, server, streaming)
+    return r if want_state else r[0]
+
+
+def _monitor(frames, server, streaming):
     st, msgs, ok = 'init', 0, None
     for f in frames:
         if st == 'cut':
-            return 'frame %s after RST_STREAM' % f
+            return ('frame %s after RST_STREAM' % f, st)
         if f == 'R':
             if st == 'init' and not server:
-                return 'RST_STREAM before HEADERS'
+                return ('RST_STREAM before HEADERS', st)
             st = 'cut'
             continue
         if st == 'done':
-            return 'frame %s after the end of the %s' % (f, 'response' if server else 'request')
+            return ('frame %s after the end of the %s' % (f, 'response' if server else 'request'), st)
         if f.startswith('H.'):
             _, es, okb, names = f.split('.')
             if st == 'init':
                 need = 'Sc' if server else 'mspaec'
                 if any(c not in names for c in need):
-                    return 'first HEADERS lacks protocol headers: ' + names
+                    return ('first HEADERS lacks protocol headers: ' + names, st)
                 if server and es == '1' and 'g' not in names:
-                    return 'trailers-only without grpc-status'
+                    return ('trailers-only without grpc-status', st)
                 if server and es == '0' and 'g' in names:
-                    return 'grpc-status in initial headers'
+                    return ('grpc-status in initial headers', st)
                 st = 'done' if es == '1' else 'open'
                 ok = okb
             elif st == 'open':
                 if not server:
-                    return 'second HEADERS in a request'
+                    return ('second HEADERS in a request', st)
                 if es != '1' or 'g' not in names or 'S' in names:
-                    return 'malformed trailers: ' + f
+                    return ('malformed trailers: ' + f, st)
                 st, ok = 'done', okb
         elif f.startswith('D.'):
             if st != 'open':
-                return 'DATA outside HEADERS..END_STREAM'
+                return ('DATA outside HEADERS..END_STREAM', st)
             if server and f == 'D.1':
-                return 'server DATA with END_STREAM'
+                return ('server DATA with END_STREAM', st)
             msgs += 1
             if f == 'D.1':
                 st = 'done'
         elif f == 'E':
             if st != 'open' or server:
-                return 'END_STREAM frame out of place'
+                return ('END_STREAM frame out of place', st)
             st = 'done'
         else:
-            return 'unexpected frame ' + f
+            return ('unexpected frame ' + f, st)
         if not streaming:
             if msgs > 1:
-                return 'more than one message on a unary %s' % ('reply' if server else 'request')
+                return ('more than one message on a unary %s' % ('reply' if server else 'request'), st)
             if st == 'done' and not server and msgs != 1:
-                return 'unary request ended with %d messages' % msgs
+                return ('unary request ended with %d messages' % msgs, st)
             if st == 'done' and server and ok == '1' and msgs != 1:
-                return 'unary reply with OK and %d messages' % msgs
-    return None
+                return ('unary reply with OK and %d messages' % msgs, st)
+    return (None, st)
 
 
 # ---- running one history on the real objects ------------------------------------------------------
@@ -280,6 +286,10 @@ def run_server(card, hist, client_ended):
         if not box.get('done') and box.get('cur'):
             c, start = box['cur']
             steps.append((c, 'blocked', '', []))
+        elif box.get('done'):
+            # what the context exit put on the wire after the handler returned (not part of the model comparison)
+            tap = se.taps[-1]
+            steps.append(('EXIT', 'x', '', [frame_code(f, True) for f in tap.stream_frames(sid, box['final'])]))
     return steps
 
 
@@ -289,7 +299,7 @@ def model_line(side, card, remote, steps):
     cs, ss = card[0] == 'S', card[1] == 'S'
     toks = [side, '%d' % cs, '%d' % ss, '%d' % remote]
     for call, res, fl, frames in steps:
-        if res == 'blocked':
+        if res == 'blocked' or call == 'EXIT':
             break
         toks.append('%s~%s~%s~%s' % (call, res, fl, ';'.join(frames) or '-'))
     return ' '.join(toks)
@@ -315,6 +325,30 @@ def check_history(ctx, res, side, card, mode, hist, batch):
     if bad:
         res.oracle_failures.append({'case': case, 'what': bad, 'observed': steps,
                                     'signature': {'side': side, 'kind': 'malformed-exchange'}})
+    # an accepted step must have performed its step of the exchange (independent of the model)
+    sofar = []
+    for call, r, fl, fr in steps:
+        sofar.extend(fr)
+        if side == 'c' and r == 'o' and call != 'P':
+            op, e1 = call.split('.')[0], call.split('.')[1] == '1'
+            _, stt = monitor(sofar, False, streaming, want_state=True)
+            if (op == 'en' or (op in ('sm', 'sr') and e1) or (op == 'sm' and not streaming)) and stt not in ('done', 'cut'):
+                res.oracle_failures.append({'case': case, 'observed': steps,
+                                            'what': 'accepted %s left the request open (no END_STREAM on the wire)' % call,
+                                            'signature': {'side': side, 'kind': 'accepted-step-not-performed'}})
+                break
+            if op == 'sr' and stt == 'init' or op == 'sm' and not any(x.startswith('D.') for x in sofar):
+                res.oracle_failures.append({'case': case, 'observed': steps,
+                                            'what': 'accepted %s put nothing on the wire' % call,
+                                            'signature': {'side': side, 'kind': 'accepted-step-not-performed'}})
+                break
+    if side == 's' and steps and steps[-1][0] == 'EXIT':
+        _, stt = monitor(frames, True, streaming, want_state=True)
+        if stt not in ('done', 'cut'):
+            res.oracle_failures.append({'case': case, 'observed': steps,
+                                        'what': 'the handler returned but the response was neither ended by trailers nor '
+                                                'reset (state %s)' % stt,
+                                        'signature': {'side': side, 'kind': 'response-not-terminated'}})
     for call, r, fl, fr in steps:
         if r == 'r' and fr:
             res.oracle_failures.append({'case': case, 'what': 'refused call %s emitted %s' % (call, fr),
